@@ -223,3 +223,72 @@ Theorem C09_subloc_overlap_refuted :
     idx sub <> sublist (3 * s) (3 * e) (idx g).
 Proof. exact subloc_overlap_refuted. Qed.
 Print Assumptions C09_subloc_overlap_refuted.
+
+(* ---------- build_location_from_others: what Prepeptide.from_biopython rebuilds ---------- *)
+(* Vocabulary (Proofs.v): [chain st e Bs] - every section in Bs is a non-empty list of exons of
+   strand st in ascending order without overlaps (mono), the first starting at or after e, each
+   next one at or after the end of the last exon of the one before ([lastpe]).
+
+   Strand 1 (any strand but -1): sections B :: Bs handed over in ascending (= transcription) order,
+   adjoining or apart, boundaries inside an exon or on an exon border: build_location_from_others
+   succeeds; the result is again a gene that does not span the origin (so C09_subloc and
+   C09_prepeptide_partition apply to it), reads exactly the sections' coordinates one after the
+   other (nothing lost, doubled or reordered by merging the shared boundaries), and has their total
+   length *)
+Theorem C09_build_from_others_forward : forall st B Bs,
+  st <> -1 -> B <> [] -> mono 0 B -> same_strand st B -> chain st (lastpe B) Bs ->
+  exists R, build_from_others (B :: Bs) = Ok R /\ guard_gene R = true /\
+            idx R = flat_map idx (B :: Bs) /\
+            llen R = llen B + fold_right (fun l a => llen l + a) 0 Bs.
+Proof. exact build_forward. Qed.
+Print Assumptions C09_build_from_others_forward.
+
+(* Strand -1: the sections in transcription order are [rev A0; rev B1; ...; rev Bk] (each lists
+   its exons downwards, each section lies below the one before: Bk ++ ... ++ B1 ++ A0 is ascending).
+   Nothing is ever merged (loc.start == location.end never holds): the result is the plain
+   concatenation = the downward listing of Bk ++ ... ++ A0, a gene that does not span the origin,
+   reading exactly the sections' coordinates in order.  (A single-exon reverse gene therefore comes
+   back as a join of its adjoining sections, with the same bases in the same order.) *)
+Theorem C09_build_from_others_reverse : forall Bs A0,
+  A0 <> [] -> Forall (fun B => B <> []) Bs -> mono 0 (concat (rev Bs) ++ A0) ->
+  same_strand (-1) (concat (rev Bs) ++ A0) ->
+  exists R, build_from_others (rev A0 :: map (@rev part) Bs) = Ok R /\
+            R = gene_of (-1) (concat (rev Bs) ++ A0) /\ guard_gene R = true /\
+            idx R = flat_map idx (rev A0 :: map (@rev part) Bs) /\
+            llen R = llen (concat (rev Bs) ++ A0).
+Proof. exact build_reverse. Qed.
+Print Assumptions C09_build_from_others_reverse.
+
+(* non-vacuity, on sections that the modelled sub-location function really produces: a forward
+   three-exon gene, leader | core inside the first exon, core | tail on the border of the second
+   and third exon; the sections meet the hypotheses and the re-read location is the gene *)
+Example C09_build_forward_nonvacuous :
+  let g := [mkPart 3 12 1; mkPart 20 26 1; mkPart 30 36 1] in
+  prepeptide_locs g 2 2 = Ok [[mkPart 3 9 1]; [mkPart 9 12 1; mkPart 20 26 1]; [mkPart 30 36 1]] /\
+  mono 0 [mkPart 3 9 1] /\ same_strand 1 [mkPart 3 9 1] /\
+  chain 1 (lastpe [mkPart 3 9 1]) [[mkPart 9 12 1; mkPart 20 26 1]; [mkPart 30 36 1]] /\
+  prepeptide_reread g 2 2 = Ok g.
+Proof.
+  split; [vm_compute; reflexivity|]. split; [simpl; lia|]. split; [repeat constructor|].
+  split; [|vm_compute; reflexivity].
+  simpl. repeat split; try discriminate; try lia; repeat constructor.
+Qed.
+
+(* the same on strand -1, two exons, the core spanning the intron: the sections are the downward
+   listings of ascending lists that lie below one another, and the re-read location reads the
+   gene's bases in order (here join{[165:195], [150:165], [60:75], [30:60]}: the gene's exons split
+   at the section boundaries) *)
+Example C09_build_reverse_nonvacuous :
+  let g := [mkPart 150 195 (-1); mkPart 30 75 (-1)] in
+  let A0 := [mkPart 165 195 (-1)] in
+  let B1 := [mkPart 60 75 (-1); mkPart 150 165 (-1)] in
+  let B2 := [mkPart 30 60 (-1)] in
+  prepeptide_locs g 10 10 = Ok [rev A0; rev B1; rev B2] /\
+  mono 0 (concat (rev [B1; B2]) ++ A0) /\ same_strand (-1) (concat (rev [B1; B2]) ++ A0) /\
+  prepeptide_reread g 10 10
+    = Ok [mkPart 165 195 (-1); mkPart 150 165 (-1); mkPart 60 75 (-1); mkPart 30 60 (-1)] /\
+  idx [mkPart 165 195 (-1); mkPart 150 165 (-1); mkPart 60 75 (-1); mkPart 30 60 (-1)] = idx g.
+Proof.
+  split; [vm_compute; reflexivity|]. split; [simpl; lia|]. split; [repeat constructor|].
+  split; vm_compute; reflexivity.
+Qed.
